@@ -619,7 +619,7 @@ func (c *c08GenCtx) mutate(cd *c08Cand) {
 			cd.h.PatchTransactionsHash = c.txListHash(cd.b.PatchTransactions, cd.h.PatchTransactionsHash)
 		}
 	case 16: // votes
-		cd.b.Votes = []([]byte){nil, {}, o.bf.Votes, c08Flip(g, cd.b.Votes), c.randBytes(), c08Trunc(g, cd.b.Votes)}[g.Intn(6)]
+		cd.b.Votes = []([]byte){nil, {}, o.bf.Votes, c08Flip(g, cd.b.Votes), c.randBytes(), c08Trunc(g, cd.b.Votes), c08SigNoV(cd.b.Votes)}[g.Intn(7)]
 		if g.Intn(2) == 0 {
 			c08Safe(func() {
 				if v := c.n.nd.Chain.CommitVoteSetDecoder()(cd.b.Votes); v != nil {
@@ -671,6 +671,16 @@ func c08Flip(g *Gen, b []byte) []byte {
 	}
 	r := c08Clone(b)
 	r[g.Intn(len(r))] ^= byte(1 << uint(g.Intn(8)))
+	return r
+}
+
+// c08SigNoV declares the first 65-byte signature of a vote list as a 64-byte one (the recovery
+// id becomes a trailing item of the vote item, which the decoder skips).
+func c08SigNoV(b []byte) []byte {
+	r := c08Clone(b)
+	if i := bytes.Index(r, []byte{0xb8, 0x41}); i >= 0 {
+		r[i+1] = 0x40
+	}
 	return r
 }
 
@@ -732,6 +742,20 @@ func c08Gen(g *Gen) {
 		return
 	}
 	emit := func(bs []byte, tag string) {
+		// whatever header / body the bytes contain (byte-level mutations can shift item
+		// boundaries): tell the model what the components answer for those field values too
+		c08Safe(func() {
+			var hf block.V2HeaderFormat
+			rest, err := codec.BC.UnmarshalFromBytes(bs, &hf)
+			if err != nil {
+				return
+			}
+			var bf block.V2BodyFormat
+			if _, err = codec.BC.UnmarshalFromBytes(rest, &bf); err != nil {
+				return
+			}
+			c.register(&c08Cand{h: hf, b: bf})
+		})
 		if tag != "" {
 			g.Emit("dec %s %s", hx(bs), tag)
 		} else {
